@@ -77,13 +77,28 @@ def drv_utility(tier, rng):
         for r in perm_twins(rng, req, 'C04', 2):
             g.append(base_case(r, exactprop='C03', group={'id': 'x', 'rel': 'perm', 'p': 'C04'}))
         groups.append(g)
+    # utilities exactly one or two rounding steps (1e-8) apart: distinct values, to be ordered by value, never tied.
+    # unit 1e8 makes the steps visible to the specification (single criterion of weight 1: the utility is the value)
+    FU = 100000000
+    bases = [30000000, 100000000, 7]
+    for n in (2, 3, 4):
+        for ks in itertools.product((0, 1, 2), repeat=n):
+            if tier == 'quick' and rng.random() < 0.5:
+                continue
+            method = rng.choice(['weightedSum', 'owa', 'choquetIntegral'])
+            base = rng.choice(bases)
+            known = [{'id': ALT[i], 'criteria': {'c1': base + ks[i]}} for i in range(n)]
+            req = {'preferenceFunction': method, 'knownAlternatives': known, 'choseToMake': [a['id'] for a in known],
+                   'criteria': [crit(0, 'gain')], 'methodParameters': {'weights': {'c1': FU}}, 'biases': []}
+            g = [base_case(r, unit=FU, noC03=True, group={'id': 'x', 'rel': 'perm', 'p': 'C04'}) for r in perm_twins(rng, req, 'C04', 1)]
+            groups.append(g)
     return groups
 
 
 
 # ---------------------------------------------------------------- majority
-def heur_req(rng, method, n, m, vals, extra_known=0, types=None):
-    tab = [[UNIT * rng.choice(vals) for _ in range(m)] for _ in range(n + extra_known)]
+def heur_req(rng, method, n, m, vals, extra_known=0, types=None, unit=UNIT):
+    tab = [[unit * rng.choice(vals) for _ in range(m)] for _ in range(n + extra_known)]
     types = types or ['gain' if rng.random() < 0.6 else 'cost' for _ in range(m)]
     known = alts(tab, m)
     chose = [a['id'] for a in known[:n]]
@@ -99,8 +114,14 @@ def drv_majority(tier, rng):
         n = rng.randint(1, 8)
         m = rng.randint(1, 4)
         extra = rng.choice([0, 0, 1, 2])
-        req = heur_req(rng, 'majorityHeuristic', n, m, [0, 1, 2] if rng.random() < 0.6 else [0, 1, 2, 3, 5, 8], extra)
-        mp = {'weights': {CRIT[j]: UNIT * rng.choice([1, 1, 2, 3]) for j in range(m)},
+        # a third of the cases use decimal weights (unit 10: 0.1, 0.2, 0.3 ...): sums that are equal as numbers
+        # but not bit-identical as floats must still count as draws (the 1e-6 tolerance of the comparison)
+        dec = rng.random() < 0.33
+        unit = 10 if dec else UNIT
+        if dec:
+            m = rng.randint(2, 5)
+        req = heur_req(rng, 'majorityHeuristic', n, m, [0, 1, 2] if rng.random() < 0.6 else [0, 1, 2, 3, 5, 8], extra, unit=unit)
+        mp = {'weights': {CRIT[j]: (rng.choice([1, 2, 3, 3, 4, 6, 7]) if dec else UNIT * rng.choice([1, 1, 2, 3])) for j in range(m)},
               'randomSeed': rng.randint(0, 10 ** 6)}
         pol = rng.choice(['allow', 'current', 'newer', 'random', None])
         if pol:
@@ -113,7 +134,23 @@ def drv_majority(tier, rng):
         if rng.random() < 0.3:
             mp['randomAlternativesOrdering'] = True
         req['methodParameters'] = mp
-        groups.append([base_case(req, exactprop='C11', refmax=5)])
+        groups.append([base_case(req, exactprop='C11', refmax=5, unit=unit)])
+    # targeted: scores that are equal as numbers but differ in the last float bit (0.1 + 0.2 vs 0.3, 0.1 + 0.2 + 0.4 vs 0.7),
+    # on either side, under every draw policy
+    for ws in ([1, 2, 3], [3, 1, 2], [1, 2, 4, 7], [7, 4, 2, 1], [2, 4, 6], [1, 6, 7]):
+        m = len(ws)
+        for pol in ('allow', 'current', 'newer', 'random'):
+            for flip in (False, True):
+                hi = [1] * (m - 1) + [0]
+                lo = [0] * (m - 1) + [1]
+                a, b = (hi, lo) if not flip else (lo, hi)
+                known = [{'id': 'a1', 'criteria': {CRIT[j]: 10 * a[j] for j in range(m)}},
+                         {'id': 'a2', 'criteria': {CRIT[j]: 10 * b[j] for j in range(m)}},
+                         {'id': 'a3', 'criteria': {CRIT[j]: 0 for j in range(m)}}]
+                req = {'preferenceFunction': 'majorityHeuristic', 'knownAlternatives': known, 'choseToMake': ['a1', 'a2', 'a3'],
+                       'criteria': [crit(j, 'gain') for j in range(m)], 'biases': [],
+                       'methodParameters': {'weights': {CRIT[j]: ws[j] for j in range(m)}, 'drawResolution': pol, 'randomSeed': 3}}
+                groups.append([base_case(req, exactprop='C11', refmax=5, unit=10)])
     return groups
 
 
@@ -202,7 +239,7 @@ DIST_FUNS = [
 ]
 
 
-def electre_req(rng, n, m, vals, extra=0):
+def electre_req(rng, n, m, vals, extra=0, veto_heavy=False):
     req = heur_req(rng, 'electreIII', n, m, vals, extra)
     ec = {}
     ks = rng.choice([[1] * m, [rng.choice([1, 2, 4]) for _ in range(m)], [rng.choice([1, 3, 5]) for _ in range(m)]])
@@ -212,6 +249,10 @@ def electre_req(rng, n, m, vals, extra=0):
         q = rng.choice([1, 2])
         p = q + rng.choice([1, 2, 4])
         v = p + rng.choice([2, 4])
+        if veto_heavy:      # several criteria whose veto is partially active on the same pair (discordance strictly inside (0,1))
+            cfg = rng.choice(['qpv', 'pv', 'qpv', 'qp'])
+            q, p = 1, rng.choice([2, 3])
+            v = p + rng.choice([4, 8])
         if 'q' in cfg:
             e['q'] = {'b': UNIT * q}
         if 'p' in cfg:
@@ -241,7 +282,10 @@ def drv_electre(tier, rng):
         n = rng.randint(1, 5)
         m = rng.randint(1, 3)
         tiey = rng.random() < 0.5
-        req, f = electre_req(rng, n, m, [0, 1, 2, 3] if tiey else [0, 1, 2, 3, 4, 6, 9], rng.choice([0, 0, 1]))
+        heavy = rng.random() < 0.4
+        if heavy:
+            n, m, tiey = rng.randint(2, 4), rng.randint(3, 4), False
+        req, f = electre_req(rng, n, m, [0, 1, 2, 3] if tiey else list(range(0, 10)) if heavy else [0, 1, 2, 3, 4, 6, 9], rng.choice([0, 0, 1]), veto_heavy=heavy)
         if tiey and n >= 2 and rng.random() < 0.5:   # identical / dominated rows
             ka = req['knownAlternatives']
             ka[1]['criteria'] = dict(ka[0]['criteria'])
@@ -589,6 +633,8 @@ FAMILIES = {
         'mode': 'decide', 'trace': 'Trace_Decide', 'drivers': [drv_electre], 'chunk_lines': 80, 'trace_chunks': 12,
     },
     'pipeline': {
+        'mc': 'MC_Decision', 'mc_cfg': {'quick': 'MC_Decision_quick.cfg', 'thorough': 'MC_Decision_thorough.cfg'},
+        'mc_sample': {'quick': 100, 'thorough': 3000}, 'mc_workers': 12,
         'mode': 'decide', 'trace': 'Trace_Decide', 'drivers': [drv_pipeline],
         'second_pass': twins_omission, 'second_rel': {'rel': 'perm', 'p': 'C15'},
     },
